@@ -41,6 +41,55 @@ def cases(tier):
     return out
 
 
+def fold_recipe(run, k):
+    """if some weight-RNG state's transcript absorbed the members' bindings FOLDED into one 8-byte value (xor / wrapping sum of the u64 each member's
+    final transcript RNG gives), return that derivation as a recipe the replay crate can re-execute on the real crates for any batch size:
+    {'init': label, 'entries': [{'label', 'fold': 'xor'|'add'} | {'label', 'count': True} | {'label', 'lit': hex}]}; None otherwise.
+    (u64 values cannot carry provenance through integer arithmetic in the model; the registered stand-ins are recognised by value.)"""
+    lv = LogView(run.core)
+    regs = [(int(r['concrete']), r['rnd_blob']) for r in run.core['u64'] if 'rnd_blob' in r]
+    # the documented per-member binding: first output (ctr 0) of an RNG state finalised with the null RNG
+    bind = [v for v, b in regs if run.core['blobs'][b].get('ctr') == 0 and run.core['blobs'][b].get('t') == 'rnd']
+    if len(bind) < k:
+        return None
+    import itertools
+    for sid, _ in weight_state(run):
+        st = run.core['rng_states'][sid]
+        chain = lv.chain(st['log'])
+        entries, folded = [], False
+        for _, e in chain:
+            if e['t'] == 'init':
+                continue
+            if e['t'] != 'append' or len(e['pieces']) != 1 or 'lit' not in e['pieces'][0] or e['len'] != 8:
+                entries = None
+                break
+            val = int.from_bytes(bytes.fromhex(e['pieces'][0]['lit']), 'little')
+            lab = e['label']
+            hit = None
+            for sub in itertools.combinations(bind, k):
+                x = 0
+                a = 0
+                for v in sub:
+                    x ^= v
+                    a = (a + v) & ((1 << 64) - 1)
+                if val == x:
+                    hit = 'xor'
+                elif val == a:
+                    hit = 'add'
+                if hit:
+                    break
+            if hit:
+                entries.append({'label': lab, 'fold': hit})
+                folded = True
+            elif val == k:
+                entries.append({'label': lab, 'count': True})
+            else:
+                entries.append({'label': lab, 'lit': e['pieces'][0]['lit']})
+        if entries and folded:
+            return {'init': chain[0][1]['label'], 'entries': entries}
+    return None
+
+
 def analyse(ctx, case, run, S):
     cfg = case['cfg']
     if case['kind'] == 'cancel':
@@ -54,7 +103,8 @@ def analyse(ctx, case, run, S):
         if not ctx.expect(ev is not None, 'C08:no-final-comparison', '%s: no final comparison' % case['name'], cfg, 'tampered_accepted'):
             continue
         ws = [s for s, napp in weight_state(run) if napp == k]
-        if not ctx.expect(len(ws) >= 1, 'C08:weight-derivation', '%s: no weight RNG whose transcript absorbed one entry per member (%s)' % (case['name'], v['action']), cfg, 'weights_predictable'):
+        if not ctx.expect(len(ws) >= 1, 'C08:weight-derivation', '%s: no weight RNG whose transcript absorbed one entry per member (%s)' % (case['name'], v['action']), cfg, 'weights_predictable',
+                          {'weight_recipe': fold_recipe(run, k)}):
             continue
         sid = ws[-1]
         total = Lin()
